@@ -36,6 +36,10 @@ TRUSTED = [
     "rayon: par_chunks(..).map(f).collect() is modelled as map f over the chunks (order preserved, closures pure); the thread "
     "count read from available_parallelism() is an explicit parameter, theorems hold for every count >= 1; validated by "
     "running the harness under RAYON_NUM_THREADS and taskset settings",
+    "UPDATE (extension-field instance): for Polynomial<XFieldElement> and the mixed BFieldElement x XFieldElement products the "
+    "hypotheses are now DISCHARGED as well (C07_xfe_*, C07_bx_*, C07_xb_*): field_ok by proofs/XFieldOk.v (xfe_field_ok over "
+    "k3_field = Fp[X]/(X^3 - X + 1); bfe_field_ok3 for a base-field operand read through the embedding), ntt_ok / intt_ok / "
+    "roots_ok by proofs/XFieldNtt.v (ntt_x_field_dft, intt_x_field_idft, lmax = 31), mul12_ok by xscale = product with the lift",
 ]
 ASSUMPTIONS = [
     "vector lengths stay below 2^32 (ntt panics above; not executable) and usize arithmetic on lengths does not overflow",
